@@ -131,6 +131,8 @@ struct Engine : MemView {
         uint64_t switches = 0, yields = 0, blocked_on_mutex = 0;
         sem_t main_sem;
         bool ls_protected_now = false;
+        // twin oracles want the run to go on after the model objected, so that both runs cover the same ops
+        bool stop_now() const { return mon.viol.set() && !opts.keep_going; }
         bool yield_pending = false;
         void flush_yield()
         {
@@ -740,7 +742,7 @@ void Engine::thread_body(int id)
 {
         sem_wait(&thr[id].sem);
         for (const Op *o : thr[id].ops) {
-                if (mon.viol.set() || es.overrun)
+                if (stop_now() || es.overrun)
                         break;
                 for (int64_t i = 0; i < o->c && id != 0; i++)
                         yield_point(); // the application thread does something else for a while
@@ -1374,7 +1376,7 @@ void Engine::drain()
         while (n < bound) {
                 st = service_once();
                 n++;
-                if (st == CAT_STATUS_OK || mon.viol.set() || es.overrun)
+                if (st == CAT_STATUS_OK || stop_now() || es.overrun)
                         break;
                 // a hold that starts during the drain is released at once (faults have stopped)
                 if (mon.model_ok() && mon.held_unreleased())
@@ -1408,18 +1410,18 @@ void Engine::exec(const Op &o)
                 last_state_valid = false;
                 break;
         case OP_SVC:
-                for (int64_t i = 0; i < o.a && !mon.viol.set() && !es.overrun; i++)
+                for (int64_t i = 0; i < o.a && !stop_now() && !es.overrun; i++)
                         service_once();
                 break;
         case OP_SVCQ:
-                for (int64_t i = 0; i < o.a && !mon.viol.set() && !es.overrun; i++)
+                for (int64_t i = 0; i < o.a && !stop_now() && !es.overrun; i++)
                         if (service_once() == CAT_STATUS_OK)
                                 break;
                 break;
         case OP_QUIESCE:
                 // until nothing is left to do at all: input consumed and OK, or a command is held
                 // (not yet released) with the event side idle
-                for (int64_t i = 0; i < o.a && !mon.viol.set() && !es.overrun; i++) {
+                for (int64_t i = 0; i < o.a && !stop_now() && !es.overrun; i++) {
                         int st = service_once();
                         if (st == CAT_STATUS_OK && rx_pos >= rx.size())
                                 break;
@@ -1615,7 +1617,7 @@ RunResult run_plan(const Plan &p, const RunOpts &o)
                 e.run_threads();
         } else
                 for (const Op &op : p.ops) {
-                        if ((e.mon.viol.set()) || e.es.overrun)
+                        if (e.stop_now() || e.es.overrun)
                                 break;
                         e.exec(op);
                 }
